@@ -9,7 +9,7 @@ ENTRY = {
                 "and below/around/above the 1.6 MB buffer, op logs validated by TLC against the abstract reader; (B) the logged position/bufferStart/depth of the single-file level validated "
                 "against the algorithm spec with the real constants.  Every call runs under a watchdog.",
         "design_ref": "DESIGN.md section 4 C20",
-        "note": "Trusted: TLC, the harness's line renderer/recogniser and cursor projection, lossless run-length encoding of read results. "
+        "note": "Returned lines are retained as returned and recognised at the end of each case (the sequence of values as a whole is what the statement describes). Trusted: TLC, the harness's line renderer/recogniser and cursor projection, lossless run-length encoding of read results. "
                 "Files are well-formed (newline-terminated non-empty lines shorter than 16 KiB, strictly increasing timestamps). "
                 "Reads on a reader that was never positioned are outside the statement and not exercised; a seek that reports an error must leave the cursor unchanged (file level and two-file reader). "
                 "The reader level is validated against the abstract spec only (its fallthrough loop is proved against the file-level outcomes by TLC as a lemma).",
